@@ -5,6 +5,7 @@ pub struct Out {
     pub cases: BufWriter<File>,
     pub imp: BufWriter<File>,
     pub n: u64,
+    dir: String,
 }
 impl Out {
     pub fn new(dir: &str) -> Self {
@@ -13,7 +14,13 @@ impl Out {
             cases: BufWriter::new(File::create(format!("{dir}/cases.txt")).unwrap()),
             imp: BufWriter::new(File::create(format!("{dir}/impl.txt")).unwrap()),
             n: 0,
+            dir: { let _ = std::fs::remove_file(format!("{dir}/current.txt")); dir.to_string() },
         }
+    }
+    /// announce the case about to be run (written through at once): if the implementation then aborts, exhausts
+    /// memory or never returns, the check driver finds the input here and reports it as the replay
+    pub fn begin(&mut self, input: &str) {
+        let _ = std::fs::write(format!("{}/current.txt", self.dir), input);
     }
     /// one case: the input line (sent to the model driver) and the implementation's canonical output
     pub fn case(&mut self, input: &str, output: &str) {
@@ -23,6 +30,7 @@ impl Out {
         self.n += 1;
     }
     pub fn finish(mut self) -> u64 {
+        let _ = std::fs::remove_file(format!("{}/current.txt", self.dir));
         self.cases.flush().unwrap();
         self.imp.flush().unwrap();
         self.n
